@@ -273,7 +273,25 @@ def run(tier, seed):
         try:
             b = structure.build_atomlist()
             if cfg["kind"] == "cif":
-                b.CIFread(ciffile=path)
+                # every documented route to the same block: in one call (block guessed or named), CIFopen first and CIFread after
+                # (block guessed or named), or the block object handed over
+                import re as _re
+                blk = _re.search(r"^data_(gen\d+)", text, _re.M).group(1)
+                route = k % 5
+                if route == 0:
+                    b.CIFread(ciffile=path)
+                elif route == 1:
+                    b.CIFread(ciffile=path, cifblkname=blk)
+                elif route == 2:
+                    b.CIFopen(ciffile=path)
+                    b.CIFread()
+                elif route == 3:
+                    b.CIFopen(ciffile=path, cifblkname=blk)
+                    b.CIFread()
+                else:
+                    b.CIFread(cifblk=structure.build_atomlist().CIFopen(ciffile=path, cifblkname=blk))
+                desc["route"] = ["CIFread(file)", "CIFread(file, block)", "CIFopen(file); CIFread()", "CIFopen(file, block); CIFread()",
+                                 "CIFread(cifblk=CIFopen(file, block))"][route]
             else:
                 b.PDBread(pdbfile=path)
             al = b.atomlist
